@@ -22,6 +22,21 @@ let parse_script (script : string) =
       (match t.[0] with
        | 'w' -> let n = int_of_string a in let s = pattern !off n in off := !off + n; go r (OWrite s :: acc)
        | 'p' -> let n = int_of_string a in let s = pattern !off n in off := !off + n; go r (OPut s :: acc)
+       | 'W' -> (match split_on ':' a with
+                 | [ns; cs] ->
+                   let n = int_of_string ns and piece = max 1 (int_of_string cs) in
+                   let rec pieces n acc = if n <= 0 then acc else
+                       let k = min n piece in let s = pattern !off k in off := !off + k; pieces (n - k) (OWrite s :: acc) in
+                   go r (pieces n acc)
+                 | _ -> failwith "W")
+       | 'z' -> (match split_on ':' a with
+                 | [ns; ss] ->
+                   let n = int_of_string ns in
+                   let x = ref ((int_of_string ss) land 0x7fffffff) in
+                   let rec gen i acc = if i >= n then List.rev acc else begin
+                       x := (!x * 1103515245 + 12345) land 0x7fffffff; gen (i + 1) (byte_tab.((!x lsr 16) land 255) :: acc) end in
+                   go r (OWrite (gen 0 []) :: acc)
+                 | _ -> failwith "z")
        | 'r' -> go r (OWrite (bytes_of_hex a) :: acc)
        | 'f' -> go r (OFlush :: acc)
        | 'b' -> let n = int_of_string a in go r ((if n < 0 then OSetbuf (true, N0) else OSetbuf (false, n_of_int n)) :: acc)
